@@ -1,6 +1,7 @@
 package trie
 
 import (
+	"strconv"
 	"bytes"
 	"encoding/binary"
 	"fmt"
@@ -129,6 +130,15 @@ func valueOf(r *rand.Rand, enc string, run int, salt uint64) []byte {
 			binary.LittleEndian.PutUint64(b, x&^(0x7ff<<52)|0x3fe<<52)
 		}
 		return b
+	}
+	if strings.HasPrefix(enc, "bytes") {
+		if w, err := strconv.Atoi(enc[5:]); err == nil {
+			b := make([]byte, w)
+			for i := range b {
+				b[i] = byte(x >> uint(8*(7-i%8)))
+			}
+			return b
+		}
 	}
 	panic("valueOf: " + enc)
 }
